@@ -290,6 +290,7 @@ impl Sub for Text {
         // 3. postings, sequentially and through the block API
         let mut positions = vec![];
         let (mut max_len, mut max_tf, mut max_term) = (0usize, 0usize, 0usize);
+        let mut reused_cursor: Option<tantivy::postings::BlockSegmentPostings> = None;
         for (t, pm) in &model {
             cx.evals(1);
             max_len = max_len.max(pm.len());
@@ -329,6 +330,27 @@ impl Sub for Text {
                 bp.advance();
             }
             ensure!(got_docs == expected_docs, "block_api_docs_differ", "term {}: {} docs via blocks, expected {}", name(), got_docs.len(), expected_docs.len());
+            // ... and once more through one block cursor that is reused from term to term (reset onto this term after it
+            // walked the previous term's list to its end)
+            {
+                let ti = inv.get_term_info(&term).or_fail("get_term_info_failed")?.ok_or_else(|| Failure::new("term_not_found", name()))?;
+                match reused_cursor.as_mut() {
+                    None => reused_cursor = Some(inv.read_block_postings_from_terminfo(&ti, record).or_fail("read_block_postings_failed")?),
+                    Some(cur) => inv.reset_block_postings_from_terminfo(&ti, cur).or_fail("reset_block_postings_failed")?,
+                }
+                let cur = reused_cursor.as_mut().unwrap();
+                let mut again: Vec<u32> = vec![];
+                loop {
+                    let n = cur.block_len();
+                    if n == 0 {
+                        break;
+                    }
+                    again.extend_from_slice(&cur.docs()[..n]);
+                    cur.advance();
+                }
+                let pos = again.iter().zip(expected_docs.iter()).position(|(a, b)| a != b).unwrap_or(again.len().min(expected_docs.len()));
+                ensure!(again == expected_docs, "reused_block_cursor_docs_differ", "term {}: a block cursor reset onto this term yields {} docs, expected {}; first difference at #{pos}: {:?} vs {:?}", name(), again.len(), expected_docs.len(), again.get(pos), expected_docs.get(pos));
+            }
             if c.record >= 1 {
                 let exp_f: Vec<u32> = pm.values().map(|ps| ps.len() as u32).collect();
                 ensure!(got_freqs == exp_f, "block_api_freqs_differ", "term {}", name());
